@@ -609,3 +609,9 @@ v("c15-literal-rule-shortcut", "C15", "LITERAL-RULE-DELEGATES", V + "rules/value
   "        if input_type:\n\n            def on_error", "        if input_type:\n            if isinstance(node, BooleanValueNode) and str(input_type) == \"Boolean\":\n                return SKIP\n\n            def on_error")
 v("c15-literal-rule-early-return-untyped", "C15", "LITERAL-RULE-DELEGATES", V + "rules/values_of_correct_type.py",
   "        if input_type:\n\n            def on_error", "        if not input_type:\n            return SKIP\n        if input_type:\n\n            def on_error", expect="silent")
+
+# -- round 4: C16 ------------------------------------------------------------------------------------------
+v("c16-float-from-int-unchecked", "C16", "FLOAT-EXACT", T + "scalars.py",
+  "    if int(num) != value:\n", "    if False:\n")
+v("c16-float-from-int-compare-other-way", "C16", "FLOAT-EXACT", T + "scalars.py",
+  "    if int(num) != value:\n", "    if value != int(num):\n", expect="silent")
